@@ -279,6 +279,15 @@ var zzC18Templates = []string{
 	"return {\"k\": {\"k\": 7001, \"k\": 7002}, \"k\": [7003, 7003]};",
 	"return {1.5: 7001, 1.5: 7002, true: 1, true: 2};",
 	"x = [7001, 7001, [7002, 7002]]; return {x[0]: 1, x[1]: 2};",
+	// a constant-true conditional without else whose block ends in an operand the solver chooses, with more code behind it
+	"if (true) { return 7001; } x = 7002; y = 7003; t(x); if (x) { t(y); } return 9;",
+	"if (1 == 1) { x = 7001; } y = 7002; if (y) { t(7003); } t(9); t(2304); return y ? 9 : 2313;",
+	"function f(a) { if (true) { return 7001; } if (a) { t(7002); } t(9); return 7003; } return f(1) + (true ? 7002 : 9);",
+	"x = true ? 7001 : 7002; if (x) { t(9); } return 7003;",
+	"if (true) { return 7001; } if (A % 2 == 1) { A = 7002; } return false;",
+	"if (true) { return 7001; } if (A in [7]) { A = 7002; } return false;",
+	"if (1 == 1) { return 7001; } x = 7002; y = 7003; if (x) { return x + y; } return 7002;",
+	"if (true) { x = 7001; t(x); } A = 7002; if (A) { A = 7003; } return A;",
 }
 
 // ZZ_C18_Literals: integer literals symbolic in [0, 70000] at AST level:
